@@ -630,11 +630,15 @@ def term_signature(t):
 
 
 def spelling_class(spelling, entries):
-    'root-cause oriented label: container class and whether Argument objects are used as keys'
+    'root-cause oriented label: Argument objects used as keys, else the container class'
     container, kk, vk = spelling
     cls = CONTAINER_CLASS[container]
     anyA = cls == 'mixed' or kk == 'A' or (kk == 'alt' and len(entries) > 1)
-    return '{}:key={}'.format(cls, 'A' if anyA and cls in ('pairs', 'mixed') else 's')
+    return 'key=A' if anyA and cls in ('pairs', 'mixed') else cls
+
+
+def container_class(spelling):
+    return CONTAINER_CLASS[spelling[0]]
 
 
 # ------------------------------------------------------------------ enumeration of bodies
